@@ -63,7 +63,8 @@ Record case := mkCase {
   c_cer_names : list (N * N);              (* child key -> file name of its certificate *)
   c_cmds : list cmd;
   c_post : ca; c_post_objs : objects;
-  c_renew : list (kind * Z) }.             (* a renewal run: object kinds with their thresholds (unix seconds) *)
+  c_renew : list (kind * Z * Z) }.         (* a renewal run: object kind, its configured re-issue margin (seconds) and the
+                                              threshold the implementation's own function returned (unix seconds) *)
 
 Definition cer_name_of (c : case) (ki : N) : N := match aget ki (c_cer_names c) with Some n => n | None => 0 end.
 
@@ -109,9 +110,15 @@ Definition updated_names_of (cl : N) (k : kind) (evs : list event) : list N :=
                      | EObjectsUpdated c k' updated _ => if (c =? cl) && kind_eqb k k' then map fst updated else []
                      | _ => []
                      end) evs.
-Definition renew_ok (s : ca) (renew : list (kind * Z)) (evs : list event) : bool :=
-  forallb (fun '(k, th) =>
+Definition renew_ok (s : ca) (renew : list (kind * Z * Z)) (evs : list event) : bool :=
+  forallb (fun '(k, _, th) =>
     forallb (fun '(cl, rc) => set_eqb (renew_names false th (rc_get_objs rc k)) (updated_names_of cl k evs)) (ca_classes s)) renew.
+
+(** The threshold of a kind is [now + the margin configured for THAT kind] (config.rs:738-793); the
+    implementation reads the clock itself, hence the slack of an hour against margins counted in weeks. *)
+Definition renew_threshold (now margin : Z) : Z := (now + margin)%Z.
+Definition thresholds_ok (now : Z) (renew : list (kind * Z * Z)) : bool :=
+  forallb (fun '(_, m, th) => (renew_threshold now m - 3600 <=? th)%Z && (th <=? renew_threshold now m + 3600)%Z) renew.
 
 (** Runs the commands of a case through the model: [None] if an event cannot be applied (panic), the
     listener refuses, or a key command is not predicted. *)
@@ -136,7 +143,8 @@ Definition agrees (c : case) : bool :=
   | None => false
   | Some (s, o) => ca_eqb s (c_post c) && objects_eqb o (c_post_objs c)
   end
-  && renew_ok (c_pre c) (c_renew c) (flat_map m_evs (c_cmds c)).
+  && renew_ok (c_pre c) (c_renew c) (flat_map m_evs (c_cmds c))
+  && thresholds_ok (e_now (c_env c)) (c_renew c).
 
 (** ** Executable oracles on the implementation's observed states *)
 
@@ -226,7 +234,35 @@ Definition numbers_ok (ncmds : N) (pre post : objects) : bool :=
         (s_num sp <=? s_num sq) && (s_num sq <=? s_num sp + ncmds)
         && (amap_eqb obj_eqb (s_pub sp) (s_pub sq) && rev_sub (s_rev sq) (s_rev sp) || (s_num sp <? s_num sq))
     end) (all_sets post).
-Definition c14_ok (c : case) : bool := numbers_ok (N.of_nat (length (c_cmds c))) (c_pre_objs c) (c_post_objs c).
+(** A re-publication run (and nothing else): Some force. *)
+Definition republish_only (c : case) : option bool :=
+  match c_cmds c with
+  | [m] => match m_kcmds m, m_evs m, m_republish m with
+           | [], [], Some f => Some f
+           | _, _, _ => None
+           end
+  | _ => None
+  end.
+
+(** What the property demands of a maintenance run, evaluated on the implementation's object stores: every
+    class that is forced or has a key set (current, staging or old) within the margin of its next update has
+    ALL its sets re-issued (number + 1), and every other class keeps its numbers. *)
+Definition due_ok_objs (now margin : Z) (force : bool) (pre post : objects) : bool :=
+  forallb (fun '(_, k) =>
+    let d := force || ok_requires now margin k in
+    forallb (fun sp =>
+      match find_set (s_key sp) post with
+      | None => false
+      | Some sq => if d then s_num sq =? s_num sp + 1 else s_num sq =? s_num sp
+      end) (sets_of k)) pre.
+Definition due_ok (c : case) : bool :=
+  match republish_only c with
+  | None => true
+  | Some f => due_ok_objs (e_now (c_env c)) (e_margin (c_env c)) f (c_pre_objs c) (c_post_objs c)
+  end.
+
+Definition c14_ok (c : case) : bool :=
+  numbers_ok (N.of_nat (length (c_cmds c))) (c_pre_objs c) (c_post_objs c) && due_ok c.
 
 Fixpoint failing_from {A} (f : A -> bool) (i : N) (l : list A) : list N :=
   match l with
